@@ -22,9 +22,10 @@ LEVEL_TEXT = ("Proof (F/M, correspondence P): pair_atomic — for every schedule
               "Database handles, reading head and working set from the same store root after every call / during the batch.")
 LEVEL_NOTE = ("Trusted: Coq kernel, Go harness + Python glue. Modelled, not verified: the chunk store's root CAS is one atomic, durable step (MemoryStorage "
               "mutex; NBS manifest update: C02/C03 carry the byte-level crash semantics), so a crash is a prefix of the schedule; process kills are not "
-              "injected by this check. That the real CommitWithWorkingSet performs a single db.update with both editor updates was read off "
+              "injected by this check; crash_recovered_pair_atomic carries pair atomicity to every byte-level crash point given the C02/C03 statement "
+              "(recovered root = root of a prefix of the root writes) as an explicit hypothesis. That the real CommitWithWorkingSet performs a single db.update with both editor updates was read off "
               "database_common.go:788-813 and is what the sampled roots test.")
-THEOREMS = ["pair_atomic", "root_changes_by_one_op", "cws_sets_both"]
+THEOREMS = ["pair_atomic", "root_changes_by_one_op", "cws_sets_both", "oracle_model_obs", "crash_recovered_pair_atomic"]
 RULE = ("C20's histories biased to CommitWithWorkingSet on branch 10 / working set 20 with stale and fresh handles, other writers (commit, set-head, "
         "delete, working-set update, tag) mostly on branch 11 / 21 / tags; sequential 4-12 calls by 2-3 handles, concurrent batches of 2-4; "
         "non-trivial = at least one CommitWithWorkingSet took effect")
